@@ -31,4 +31,5 @@ func PanicMsg() string             { panic("engine") }
 func Observe(tag string, b []byte) {}
 func AssumeCollisionFree()         {}
 func AllocBudget(bytes int)        {}
+func MapCandidates(ids []uint32)   {}
 func Note(s string)                {}
